@@ -605,6 +605,8 @@ try:
     pairs = V(V(2, "a"), V(1, "b"), V(2, "c"), V(1, "d"))
     chk('sort with a comparator is stable for ties', list(rt.sort(pairs, lambda a, b: a[0] - b[0])), [V(1, "b"), V(1, "d"), V(2, "a"), V(2, "c")])
     chk('sort', list(rt.sort(V(3, 1, 2))), [1, 2, 3])
+    chk('sort with a three-way comparator whose results are not just -1/0/1', list(rt.sort(V(5, 1, 3, 9, 2), lambda a, b: a - b)), [1, 2, 3, 5, 9])
+    chk('sort-by with such a comparator', list(rt.sort_by(lambda x: x, V(5, 1, 3, 9, 2), lambda a, b: (b - a) * 10)), [9, 5, 3, 2, 1])
     chk('sort of nothing', list(rt.sort(V()) or []), [])
 except BaseException as e:
     bad.append('unexpected %s: %s' % (type(e).__name__, e))
